@@ -20,14 +20,23 @@ chk.extra['rule'] = ('systems of 1-3 molecules with 1-2 chains each (shared inpu
                      'through the real GoPipeline; contact lists mix symmetric, one-directional, absent-residue, '
                      'absent-chain and self entries; cut-offs are often placed exactly on an occurring distance; '
                      'a case is non-trivial if it has >= 1 one-directional and >= 1 symmetric contact between '
-                     'present residues; histories apply ONE GoProcessorPipeline / VirtualSiteCreator / '
-                     'ComputeStructuralGoBias object to 2-3 systems (or one application to an unmerged system) and '
-                     'compare each result with a fresh processor and with the model (non-trivial: >= 1 Go pair emitted); '
-                     'contact-map files mix selected, unselected, comment, short/long, malformed-integer lines and '
-                     'all newline conventions (non-trivial: accepted file with noise lines); every third contact list '
-                     'reaches the pipeline through the real read_go_map, every fourth result is written with '
-                     'write_nonbond_params/write_atomtypes and the files are checked; distinct = distinct protocol line')
-chk.lean(['VermouthProps.C18', 'VermouthProps.C18_Reuse'], 'driver_c18')
+                     'present residues; residues with two backbone beads whose sub-graph is iterated in set order are '
+                     'compared with the model given the observed order; histories apply ONE GoProcessorPipeline / '
+                     'VirtualSiteCreator / ComputeStructuralGoBias object to 2-3 systems (or one application to an '
+                     'unmerged system, sometimes with an atom-less molecule) and compare each result with a fresh '
+                     'processor and with the model (non-trivial: >= 1 Go pair emitted); contact-map files mix selected, '
+                     'unselected, comment, short/long, malformed-integer lines and all newline conventions (non-trivial: '
+                     'accepted file with noise lines); every third contact list reaches the pipeline through the real '
+                     'read_go_map; every third result is written with write_nonbond_params/write_atomtypes and the two '
+                     'files are compared byte for byte with model(pipeline)+model(writers), sigma/epsilon of every pair '
+                     'checked exactly (non-trivial: >= 1 pair); generated tables (conditionals, groups, comments of all '
+                     'shapes, self/3-atom/empty atom tuples, None numbers, both ifdef+ifndef, C6C12 on exact dyadics, '
+                     'rounding ties at 8 decimals) go through the two writers and through write_gmx_topology with varying '
+                     'itp_paths (non-trivial: >= 2 blocks / both files); generated all_contacts lists go through '
+                     '_write_contacts and the written file through read_go_map (non-trivial: >= 1 selected contact); '
+                     'distinct = distinct protocol line')
+chk.lean(['VermouthProps.C18', 'VermouthProps.C18_Reuse', 'VermouthProps.C18_Files', 'VermouthProps.C18_MapWrite',
+          'VermouthProps.C18_Sigma', 'VermouthProps.C18_Order'], 'driver_c18')
 
 import numpy as np
 import networkx as nx
@@ -39,9 +48,9 @@ from vermouth.graph_utils import make_residue_graph
 from vermouth.rcsu.go_pipeline import GoProcessorPipeline
 from vermouth.rcsu.go_vs_includes import VirtualSiteCreator
 from vermouth.rcsu.go_structure_bias import ComputeStructuralGoBias
-from vermouth.rcsu.contact_map import read_go_map
+from vermouth.rcsu.contact_map import read_go_map, _write_contacts
 from vermouth.processors import SetMoleculeMeta
-from vermouth.gmx.topology import write_nonbond_params, write_atomtypes
+from vermouth.gmx.topology import write_nonbond_params, write_atomtypes, write_gmx_topology, Atomtype, NonbondParam
 from vermouth.file_writer import DeferredFileWriter
 import shutil
 import tempfile
@@ -51,6 +60,9 @@ quiet_vermouth_logs()
 chk.trusted.append('harness/c18.py: system builder, canonicaliser of nodes/interactions/nonbond_params, property oracle '
                    '(networkx shortest paths, Fractions); exactness of float sqrt/comparison on integer lattices with '
                    'dyadic cut-offs')
+chk.trusted.append('harness/c18.py (extension): fractions.Fraction(x) as the exact value of a Python number; the independent '
+                   'parameter-file parser and its block/group bookkeeping; scipy euclidean(...)*10 re-evaluated for the distance '
+                   'column of the written contact map; str() of mass/charge')
 KNOWN_IDS = {k['id'] for k in chk.known if k.get('status') == 'known'}
 FIXED_IDS = {k['id'] for k in chk.known if k.get('status') == 'fixed'}
 
@@ -209,6 +221,8 @@ def run_real(spec, runner=None, via_file=False):
         status = 'exit'
     except KeyError:
         status = 'keyerror'
+    except (ValueError, TypeError, IndexError, AttributeError) as exc:
+        status = 'raised-' + type(exc).__name__
     mol = system.molecules[0]
     nb = system.gmx_topology_params['nonbond_params']
     impl, new, vsn, excl = canon(mol, pre, pre_vsn, pre_excl, nb, status)
@@ -291,7 +305,9 @@ def oracle(spec, obs):
     contacts = obs['contacts']
     if obs['status'] != 'ok':
         flags.add('aborted')
-        if obs['status'] == 'keyerror':
+        if obs['status'].startswith('raised-'):
+            errs.append('the Go pipeline stopped with %s' % obs['status'][7:])
+        elif obs['status'] == 'keyerror':
             errs.append('KeyError: no Go virtual-site type found for a listed residue')
         else:
             # sys.exit(1) is only acceptable when a listed, present residue has no backbone particle
@@ -370,9 +386,12 @@ def oracle(spec, obs):
         pair = frozenset(type_res[t] for t in p.atoms)
         got[pair] = got.get(pair, 0) + 1
         if pair in expected:
-            want = math.sqrt(expected[pair][1]) / conv
-            if not math.isclose(p.sigma, want, rel_tol=1e-9):
-                errs.append('sigma %r for %r, expected %r' % (p.sigma, p.atoms, want))
+            # sigma = d / 2^(1/6)  <=>  sigma >= 0 and 2 sigma^6 = d^6 = (d^2)^3: checked on the exact value of the
+            # double, relative tolerance 1e-12 on the sixth powers
+            d6 = Fraction(expected[pair][1]) ** 3
+            if not (p.sigma >= 0 and abs(2 * Fraction(float(p.sigma)) ** 6 - d6) <= SIGMA_TOL * d6):
+                errs.append('sigma %r for %r: 2*sigma^6 differs from d^6 = %d^3 by more than 1e-12 (expected sigma %r)'
+                            % (p.sigma, p.atoms, expected[pair][1], math.sqrt(expected[pair][1]) / conv))
             if p.epsilon != par['eps']:
                 errs.append('epsilon %r for %r, requested %r' % (p.epsilon, p.atoms, par['eps']))
     for pair in expected:
@@ -390,6 +409,46 @@ def oracle(spec, obs):
     if want_excl != got_excl:
         errs.append('exclusions %r, expected backbone pairs %r' % (got_excl, want_excl))
     return errs, finding, flags
+
+
+def go_files(ln, spec, obs):
+    """the two files written for the result of one pipeline run -> (protocol line, impl string, nb text, at text, errors)"""
+    system, par = obs['system'], spec['params']
+    at_text, at_err = call_writer(write_atomtypes, system, False, 'go_atomtypes.itp')
+    nb_text, nb_err = call_writer(write_nonbond_params, system, False, 'go_nbparams.itp')
+    conv = 2 ** (1 / 6)
+    nums, sig_ok, eps_ok, errs = [], [], [], []
+    for p in obs['nb']:
+        com = p.meta.get('comment') or ['']
+        nums.append([qenc(float(p.sigma)), qenc(float(p.epsilon)), com[0][len('go bond '):]])
+        d2 = int(round((float(p.sigma) * conv) ** 2))         # the squared lattice distance this sigma stands for
+        fs = Fraction(float(p.sigma))
+        sig_ok.append(bool(fs >= 0 and abs(2 * fs ** 6 - Fraction(d2) ** 3) <= SIGMA_TOL * Fraction(d2) ** 3))
+        eps_ok.append(Fraction(float(p.epsilon)) == Fraction(float(par['eps'])))
+        if not sig_ok[-1]:
+            errs.append('sigma %r of %r is not d/2^(1/6) for any lattice distance (2 sigma^6 vs d^6, rel. 1e-12)'
+                        % (p.sigma, p.atoms))
+        if not eps_ok[-1]:
+            errs.append('epsilon %r of %r is not the requested depth %r' % (p.epsilon, p.atoms, par['eps']))
+        if not com[0].startswith('go bond '):
+            errs.append('comment of the Go potential is %r' % (com,))
+    fl = line('gofiles') + ln[len(enc('go')):] + ' ' + ' '.join(enc(x) for x in (nums, qenc(SIGMA_TOL),
+                                                                                    qenc(float(par['eps']))))
+    impl = 'at %s %s nb %s %s sigma %s eps %s' % (enc(at_text), at_err, enc(nb_text), nb_err, enc(sig_ok), enc(eps_ok))
+    return fl, impl, nb_text, at_text, errs
+
+
+def residue_orders(obs):
+    """the node keys of every residue whose sub-graph view networkx does not iterate in node order"""
+    mol = obs['mol']
+    rg = make_residue_graph(mol)
+    pos = {k: i for i, k in enumerate(mol.nodes)}
+    out = []
+    for r in rg.nodes:
+        sub = list(rg.nodes[r]['graph'].nodes)
+        if sub != sorted(sub, key=pos.get):
+            out.append(sub)
+    return out
 
 
 def order_sensitive(spec, obs):
@@ -414,16 +473,8 @@ def order_sensitive(spec, obs):
 # ----------------------------------------------------------------------------
 # what is written for the Go model: [ nonbond_params ] and [ atomtypes ] (oracle on the real files)
 # ----------------------------------------------------------------------------
-def writer_oracle(obs):
+def writer_oracle(obs, nb_text, at_text):
     errs = []
-    system = obs['system']
-    d = tempfile.mkdtemp(dir=TMP)
-    p_nb, p_at = os.path.join(d, 'go_nbparams.itp'), os.path.join(d, 'go_atomtypes.itp')
-    write_nonbond_params(system, p_nb)
-    write_atomtypes(system, p_at)
-    DeferredFileWriter().write()
-    nb_text, at_text = open(p_nb).read(), open(p_at).read()
-    shutil.rmtree(d)
     rows = [l for l in nb_text.split('\n') if l.strip()]
     if not rows or rows[0].split() != ['[', 'nonbond_params', ']']:
         errs.append('nonbond_params file does not start with its directive')
@@ -470,6 +521,310 @@ def writer_oracle(obs):
         except ValueError:
             errs.append('non-numeric atomtype line %r' % (t,))
     return errs
+
+
+
+# ----------------------------------------------------------------------------
+# the written parameter files, byte for byte (model: lean/VermouthModel/C18_Write.lean)
+# ----------------------------------------------------------------------------
+ERRS = ((ValueError, 'valueerror'), (IndexError, 'indexerror'), (TypeError, 'typeerror'), (KeyError, 'keyerror'))
+SIGMA_TOL = Fraction(1, 10 ** 12)      # relative, on the sixth powers (double rounding gives < 1e-14)
+
+
+def qenc(x):
+    """exact value of a Python number as [numerator, denominator]; None stays None"""
+    if x is None:
+        return None
+    fr = Fraction(x)
+    return [fr.numerator, fr.denominator]
+
+
+def err_name(exc):
+    for cls, name in ERRS:
+        if isinstance(exc, cls):
+            return name
+    raise exc
+
+
+def flush_writer():
+    """finalise what the writers handed to the DeferredFileWriter (also the partial file left by an exception)"""
+    DeferredFileWriter().write()
+
+
+WDIR = os.path.join(TMP, 'writers')
+os.makedirs(WDIR, exist_ok=True)
+
+
+def call_writer(fn, system, c6, fname):
+    path = os.path.join(WDIR, fname)
+    err = 'ok'
+    try:
+        fn(system, path, C6C12=c6)
+    except Exception as exc:
+        err = err_name(exc)
+    flush_writer()
+    with open(path, newline='') as f:
+        text = f.read()
+    os.remove(path)
+    return text, err
+
+
+def comment_enc(meta):
+    if 'comment' not in meta or meta['comment'] is None:
+        return None
+    c = meta['comment']
+    return list(c)          # a str comment is joined character by character
+
+
+def nb_enc(p):
+    return [list(p.atoms), qenc(p.sigma), qenc(p.epsilon), p.meta.get('ifdef'), p.meta.get('ifndef'),
+            p.meta.get('group'), comment_enc(p.meta)]
+
+
+def at_enc(t):
+    node = t.molecule.nodes[t.node] if t.node in t.molecule.nodes else {}
+    f = lambda k: (str(node[k]) if k in node else None)
+    return [f('atype'), f('mass'), f('charge'), qenc(t.sigma), qenc(t.epsilon), t.meta.get('ifdef'),
+            t.meta.get('ifndef'), t.meta.get('group'), comment_enc(t.meta)]
+
+
+def parse_param_file(text, name):
+    """small independent reader of a parameter file -> (errors, rows); a row is
+    (tokens before ';', comment text or None, open conditionals, group line in force)"""
+    errs, rows = [], []
+    if not text.endswith('\n'):
+        errs.append('%s file does not end with a newline' % name)
+    lines = text.split('\n')[:-1] if text.endswith('\n') else text.split('\n')
+    if not lines or lines[0] != '[ %s ]' % name:
+        errs.append('%s file does not start with its directive' % name)
+    stack, group, unclosed_reopen = [], None, 0
+    for l in lines[1:]:
+        if l.startswith('#ifdef ') or l.startswith('#ifndef '):
+            kw, _, cond = l.partition(' ')
+            if stack:
+                unclosed_reopen += 1
+            stack.append((kw[1:], cond))
+            group = None
+        elif l == '#endif':
+            if not stack:
+                errs.append('#endif without an open block')
+            else:
+                stack.pop()
+            group = None
+        elif l.startswith('; '):
+            group = l[2:]
+        else:
+            data, sep, com = l.partition(';')
+            rows.append((data.split(), com if sep else None, tuple(stack), group))
+    return errs, rows, len(stack), unclosed_reopen
+
+
+def table_oracle(kind, entries, c6, text, err):
+    """the property of the writers, stated on the file: every entry of the table is written exactly once, as
+    `a b 1 nb1 nb2` / `type mass charge A nb1 nb2`, inside the conditional block and after the group line its meta
+    asks for, (nb1, nb2) = (sigma, epsilon) or the Lennard-Jones (C6, C12) = (4 eps sigma^6, 4 eps sigma^12);
+    blocks are closed.  -> (errors, finding)"""
+    name = 'nonbond_params' if kind == 'nb' else 'atomtypes'
+    if err != 'ok':
+        return [], None                  # malformed tables: the exception kind is compared with the model only
+    errs, rows, still_open, reopened = parse_param_file(text, name)
+    want = []
+    for e in entries:
+        if kind == 'nb':
+            atoms, sig, eps, meta = list(e.atoms), e.sigma, e.epsilon, e.meta
+            head = [atoms[0], atoms[1]] if len(atoms) == 2 else [atoms[0], atoms[0]]
+            head.append('1')
+        else:
+            nd = e.molecule.nodes[e.node]
+            sig, eps, meta = e.sigma, e.epsilon, e.meta
+            head = [str(nd['atype']), str(nd['mass']), str(nd['charge']), 'A']
+        cond = ('ifdef', meta['ifdef']) if meta.get('ifdef') is not None else \
+            (('ifndef', meta['ifndef']) if meta.get('ifndef') is not None else None)
+        want.append((head, sig, eps, cond, meta.get('group') or None))
+    if len(rows) != len(want):
+        errs.append('%d data lines for %d table entries' % (len(rows), len(want)))
+    exchanged = 0
+    used = [False] * len(rows)
+
+    def numbers_fit(toks, sig, eps):
+        """-> (fits, carries the exchanged numbers instead of the Lennard-Jones ones)"""
+        try:
+            n1, n2 = float(toks[-2]), float(toks[-1])
+        except ValueError:
+            return False, False
+        if not c6:
+            return abs(n1 - sig) <= 5.000001e-9 and abs(n2 - eps) <= 5.000001e-9, False
+        ok = abs(n1 - 4 * eps * sig ** 6) <= 5.000001e-9 * max(1, abs(n1)) and \
+            abs(n2 - 4 * eps * sig ** 12) <= 5.000001e-9 * max(1, abs(n2))
+        swapped = toks[-2] == '%.8F' % (4 * sig * eps ** 6) and toks[-1] == '%.8F' % (4 * sig * eps ** 12)
+        return ok or swapped, (not ok) and swapped
+
+    for head, sig, eps, cond, group in want:
+        want_stack = (cond,) if cond else ()
+        cands = []
+        for i, (toks, com, stack, grp) in enumerate(rows):
+            if not used[i] and toks[:len(head)] == head and len(toks) == len(head) + 2:
+                fits, swapped = numbers_fit(toks, sig, eps)
+                if fits:
+                    placed = stack[-1:] == want_stack[-1:] and not (not cond and stack) and grp == group
+                    cands.append((not placed, i, swapped))
+        hit = None
+        if cands:
+            # identical lines may stand for entries of different blocks: take the one in the right place first
+            _, hit, swapped = min(cands)
+            toks, com, stack, grp = rows[hit]
+            used[hit] = True
+            if swapped:
+                exchanged += 1
+            if stack[-1:] != want_stack[-1:] or (not cond and stack):
+                errs.append('entry %r is written inside %r, its meta asks for %r' % (head, stack, cond))
+            if grp != group:
+                errs.append('entry %r follows group line %r, its meta asks for %r' % (head, grp, group))
+        if hit is None:
+            errs.append('table entry %r (sigma %r epsilon %r) is not written' % (head, sig, eps))
+    finding = None
+    if exchanged:
+        errs.append('%d lines carry 4*sigma*eps^6 / 4*sigma*eps^12 instead of C6 = 4*eps*sigma^6, C12 = 4*eps*sigma^12'
+                    % exchanged)
+    if still_open:
+        errs.append('%d conditional block(s) never closed (no #endif)' % still_open)
+    only_known = [m for m in errs if not (m.startswith('%d lines carry' % exchanged) or m.endswith('(no #endif)'))]
+    if errs and not only_known:
+        if exchanged and not still_open:
+            finding = 'F-C18-4'
+        elif still_open and not exchanged:
+            finding = 'F-C18-5'
+        elif 'F-C18-4' in KNOWN_IDS and 'F-C18-5' in KNOWN_IDS:
+            finding = 'F-C18-4'           # both at once: generated only when both entries are known
+    return errs, finding
+
+
+SYN_TYPES = ['mol_1', 'mol_2', 'mol_10', 'P2', 'SC1', 'go_3', 'W', 'x_y_z_7', 'Q5n']
+SYN_CONDS = ['GO_VIRT', 'FLEXIBLE', 'A', 'a', 'B', 'GO', '']
+SYN_GROUPS = ['Go bonds', 'water bias', 'A', 'a', 'z z', None, None, '']
+DYADIC = [Fraction(n, d) for n in range(0, 13) for d in (1, 2, 4, 8)]
+
+
+def gen_number(rng, c6):
+    """-> a Python number; for C6C12 small dyadic values, so that 4*s*e**12 is exact in doubles"""
+    k = rng.random()
+    if c6:
+        v = rng.choice(DYADIC)
+        if k < 0.2:
+            return int(v) if v.denominator == 1 else float(v)
+        return float(v) * (rng.choice([1, 1, 1, -1]) if v else 1)          # never -0.0 (no exact rational)
+    if k < 0.25:
+        return rng.choice([0.0, 0, 1, 0.5, 9.414, 12.0, 2, 1e-9, 5e-9, 0.000000005, 123456.789, 1e22])
+    if k < 0.5:
+        return rng.uniform(0, 2) / 2 ** (1 / 6)
+    if k < 0.6:
+        return -rng.uniform(0, 1e-8)
+    if k < 0.7:
+        return rng.choice([1, 3, 5, 7, 9, 11, 13]) * 2.0 ** -rng.choice([9, 10, 11, 20, 30])     # exact ties at 8 decimals
+    return rng.uniform(-3, 30)
+
+
+def gen_meta(rng, conds):
+    meta = {}
+    k = rng.random()
+    if conds and k < 0.35:
+        meta['ifdef' if rng.random() < 0.6 else 'ifndef'] = rng.choice(SYN_CONDS)
+    elif conds and k < 0.38:
+        meta['ifdef'], meta['ifndef'] = rng.choice(SYN_CONDS), rng.choice(SYN_CONDS)      # ValueError
+    g = rng.choice(SYN_GROUPS)
+    if g is not None:
+        meta['group'] = g
+    k = rng.random()
+    if k < 0.35:
+        meta['comment'] = ['go bond %r' % rng.uniform(0.3, 1.2)]
+    elif k < 0.45:
+        meta['comment'] = rng.choice([[], ['a', 'b  c'], ['']])
+    elif k < 0.5:
+        meta['comment'] = rng.choice(['', 'abc', 'x y'])
+    elif k < 0.53:
+        meta['comment'] = None
+    return meta
+
+
+def gen_tables(rng):
+    """-> (system, kind, c6): a system whose table `kind` is filled with generated entries"""
+    c6 = rng.random() < 0.3 and 'F-C18-4' in KNOWN_IDS
+    conds = 'F-C18-5' in KNOWN_IDS
+    kind = rng.choice(['nb', 'nb', 'at'])
+    system = vermouth.System()
+    n = rng.choice([0, 1, 2, 3, 5, 8, 12])
+    bad = rng.random() < 0.15
+    if kind == 'nb':
+        for _ in range(n):
+            k = rng.random()
+            atoms = tuple(rng.choice(SYN_TYPES) for _ in range(2 if k < 0.8 else (1 if k < 0.93 else 3)))
+            if bad and rng.random() < 0.15:
+                atoms = ()
+            sig, eps = gen_number(rng, c6), gen_number(rng, c6)
+            if bad and rng.random() < 0.15:
+                sig = None
+            system.gmx_topology_params['nonbond_params'].append(
+                NonbondParam(atoms=atoms, sigma=sig, epsilon=eps, meta=gen_meta(rng, conds)))
+    else:
+        mol = vermouth.molecule.Molecule(nrexcl=1)
+        for i in range(n):
+            attrs = {'atype': rng.choice(SYN_TYPES), 'mass': rng.choice([0.0, 72.0, 36, 0, 54.5]),
+                     'charge': rng.choice([0, 0, 0.0, 1, -1.0, 0.5])}
+            if bad and rng.random() < 0.15:
+                del attrs[rng.choice(['atype', 'mass', 'charge'])]
+            mol.add_node(i, **attrs)
+            node = i if not (bad and rng.random() < 0.1) else 1000 + i
+            sig, eps = (0.0, 0.0) if rng.random() < 0.5 else (gen_number(rng, c6), gen_number(rng, c6))
+            if bad and rng.random() < 0.15:
+                eps = None
+            meta = gen_meta(rng, conds)
+            if meta.get('comment', 0) is None:
+                del meta['comment']           # `'comment' in meta` with a None value: TypeError in join, not generated
+            system.gmx_topology_params['atomtypes'].append(Atomtype(molecule=mol, node=node, sigma=sig, epsilon=eps,
+                                                                    meta=meta))
+    return system, kind, c6
+
+
+def c6_exact(entries, c6):
+    """the model computes 4*s*e**6 and 4*s*e**12 exactly; usable only when the doubles do too"""
+    if not c6:
+        return True
+    for e in entries:
+        s_, e_ = e.sigma, e.epsilon
+        if s_ is None or e_ is None:
+            continue
+        for k in (6, 12):
+            r_ = 4 * s_ * e_ ** k
+            if Fraction(r_) != 4 * Fraction(s_) * Fraction(e_) ** k or (r_ == 0 and math.copysign(1, r_) < 0):
+                return False          # inexact in doubles, or -0.0 (printed with its sign; not a rational)
+    return True
+
+
+def run_topology(system, c6, paths, defines):
+    """write_gmx_topology in a scratch directory -> (files as [name, text] in the order atomtypes, nonbond_params;
+    error kind; text of the .top or None)"""
+    d = tempfile.mkdtemp(dir=TMP)
+    cwd = os.getcwd()
+    os.chdir(d)
+    err = 'ok'
+    try:
+        try:
+            write_gmx_topology(system, 'out.top', itp_paths=paths, C6C12=c6, defines=defines)
+        except Exception as exc:
+            err = err_name(exc)
+        flush_writer()
+        files = []
+        if isinstance(paths, dict):
+            for key in ('atomtypes', 'nonbond_params'):
+                if key in paths and os.path.exists(paths[key]):
+                    with open(paths[key], newline='') as f:
+                        files.append([paths[key], f.read()])
+        top = open('out.top').read() if os.path.exists('out.top') else None
+        others = sorted(set(os.listdir(d)) - {'out.top'} - {f_[0] for f_ in files})
+    finally:
+        os.chdir(cwd)
+        shutil.rmtree(d)
+    return files, err, top, others
 
 
 # ----------------------------------------------------------------------------
@@ -538,8 +893,12 @@ def run_unmerged(specs):
         status = 'exit'
     except KeyError:
         status = 'keyerror'
+    except (ValueError, TypeError, IndexError, AttributeError) as exc:
+        status = 'raised-' + type(exc).__name__
     nb = list(system.gmx_topology_params['nonbond_params'])
     impls, errs = [], []
+    if status.startswith('raised-'):
+        errs.append('VirtualSiteCreator / ComputeStructuralGoBias stopped with %s on an unmerged system' % status[7:])
     for m, pre, sp in zip(system.molecules, pres, specs):
         n_ex = len(m.interactions.get('exclusions', []))
         impl, _, _, _ = canon(m, pre, 0, 0, nb[:n_ex], status)
@@ -772,7 +1131,7 @@ def gen_spec(rng, want=None, chain_ids=None):
         prefix = rng.choice(CLASH_PREFIX)
     params = {'prefix': prefix, 'backbone': 'BB', 'vsname': rng.choice(['CA', 'CA', 'VS', 'GO']),
               'low': low, 'up': up, 'sep': rng.choice([0, 0, 1, 1, 2, 2, 3, 4]) if rng.random() < 0.97 else -1,
-              'eps': rng.choice([9.414, 12.0, 2.1, 0.5])}
+              'eps': rng.choice([9.414, 12.0, 2.1, 0.5, 0.5, 0, 0.0, -1.5])}  # 0 and 0.0 are legal (falsy) depths
     return {'molecules': molecules, 'contacts': [list(c) for c in contacts], 'params': params}
 
 
@@ -822,7 +1181,15 @@ for n_, (cid, sp) in enumerate(specs):
     if via_file:
         chk.count('contact_list_read_by_read_go_map')
     ln, impl, obs = run_real(sp, via_file=via_file)
-    obs['writer_errs'] = writer_oracle(obs) if (n_ % 4 == 0 and obs['status'] == 'ok') else None
+    obs['order_sensitive'] = order_sensitive(sp, obs)
+    if obs['order_sensitive']:
+        # the result depends on the set order in which networkx iterates a residue with two backbone beads / two
+        # prefix-matching types: the observed order is handed to the model (lean/VermouthModel/C18_Order.lean)
+        ln = line('goord') + ln[len(enc('go')):] + ' ' + enc(residue_orders(obs))
+    obs['writer_errs'] = obs['files'] = None
+    if n_ % 3 == 1 and obs['status'] == 'ok' and not obs['order_sensitive']:
+        obs['files'] = go_files(ln, sp, obs)
+        obs['writer_errs'] = writer_oracle(obs, obs['files'][2], obs['files'][3])
     lines.append(ln)
     impls.append(impl)
     meta.append((cid, sp, obs))
@@ -836,9 +1203,8 @@ for ln, impl, mo, (cid, sp, obs) in zip(lines, impls, models, meta):
     n_sym = sum(1 for c in present if (c[2], c[3], c[0], c[1]) in listed)
     n_one = sum(1 for c in present if (c[2], c[3], c[0], c[1]) not in listed)
     nontriv = n_sym >= 1 and n_one >= 1
-    if order_sensitive(sp, obs):
-        chk.count('excluded_from_model_comparison:subgraph_set_order')
-        mo = None
+    if obs['order_sensitive']:
+        chk.count('compared_with_model_given_observed_subgraph_order')
     chk.count('status_' + obs['status'])
     chk.count('n_emitted=%d' % min(len(obs['nb']), 4))
     chk.count('n_sites=%s' % ('0' if not obs['new'] else '1-5' if len(obs['new']) <= 5 else '6+'))
@@ -865,6 +1231,18 @@ for ln, impl, mo, (cid, sp, obs) in zip(lines, impls, models, meta):
     if finding:
         chk.count('finding_' + finding)
     chk.case(cid, ln, impl, mo, errs, nontriv, finding=finding)
+    obs['model_compared'] = mo is not None
+
+# ---- the files written for these results: model of the pipeline + model of the writers, byte for byte ----
+fjobs = [(cid, obs) for cid, sp, obs in meta if obs['files'] is not None]
+fmodels = chk.drv.ask([obs['files'][0] for _, obs in fjobs]) if chk.lean_ok else [None] * len(fjobs)
+for (cid, obs), mo in zip(fjobs, fmodels):
+    fl, fimpl, _, _, ferrs = obs['files']
+    if not obs['model_compared']:
+        mo = None                           # residue sub-graph iterated in set order: the pipeline model is not applicable
+    chk.count('go_files_compared_bytewise' if mo is not None else 'go_files_oracle_only')
+    chk.count('go_files_pairs=%d' % min(len(obs['nb']), 4))
+    chk.case(cid + '-files', fl, fimpl, mo, ferrs, len(obs['nb']) >= 1)
 
 # ---- histories: one processor object, several systems ---------------------------------------
 hists = []
@@ -882,6 +1260,11 @@ for i in range(NH):
     hs = [gen_spec(rng, chain_ids=cids and rng.sample(cids, len(cids))) for _ in range(rng.choice([2, 2, 3]))]
     for sp in hs[1:]:
         sp['params'] = hs[0]['params']
+    if rng.random() < 0.12:
+        # a molecule without atoms: add_virtual_sites returns at once, nothing is selected
+        k_ = rng.randrange(len(hs))
+        hs[k_] = dict(hs[k_], molecules=[{'atoms': [], 'edges': []}])
+        chk.count('history_with_empty_molecule')
     hists.append(('hist-%d' % i, mode, hs))
 hl, hmeta = [], []
 for cid, mode, hs in hists:
@@ -922,5 +1305,170 @@ for i, ((t, want), ln, im, mo) in enumerate(zip(texts, ml, mimpl, mmodels)):
         errs.append('read_go_map gives %s, the file declares %s' % (clip(im, 200), clip(want, 200)))
     chk.count('map_' + im.split()[0])
     chk.case('map-%d' % i, ln, im, mo, errs, im.startswith('ok') and ('\t' in t or '#' in t or 'Residue' in t))
+
+# ---- generated parameter tables through the two writers -----------------------------------------------------
+rng = chk.rng('tables')
+tl, tmeta = [], []
+for i in range(12000 if chk.thorough else 900):
+    system, kind, c6 = gen_tables(rng)
+    key = 'nonbond_params' if kind == 'nb' else 'atomtypes'
+    entries = list(system.gmx_topology_params[key])
+    if not c6_exact(entries, c6):
+        chk.count('table_c6c12_not_exact_in_doubles(excluded)')
+        continue
+    fn = write_nonbond_params if kind == 'nb' else write_atomtypes
+    text, err = call_writer(fn, system, c6, 'x.itp')
+    tl.append(line('wnb' if kind == 'nb' else 'wat', c6, [(nb_enc if kind == 'nb' else at_enc)(e) for e in entries]))
+    tmeta.append((i, kind, c6, entries, text, err))
+tmodels = chk.drv.ask(tl) if chk.lean_ok else [None] * len(tl)
+for ln, mo, (i, kind, c6, entries, text, err) in zip(tl, tmodels, tmeta):
+    errs, finding = table_oracle(kind, entries, c6, text, err)
+    chk.count('table_%s_%s%s' % (kind, err, '_c6c12' if c6 else ''))
+    conds = {(e.meta.get('ifdef'), e.meta.get('ifndef')) for e in entries} - {(None, None)}
+    chk.count('table_conditional_blocks=%d' % min(len(conds), 3))
+    if finding:
+        chk.count('finding_' + finding)
+    chk.case('table-%d' % i, ln, enc(text) + ' ' + err, mo, errs,
+             err == 'ok' and len(entries) >= 2 and len({(e.meta.get('group'), e.meta.get('ifdef')) for e in entries}) >= 2,
+             finding=finding)
+
+# ---- write_gmx_topology: which parameter files, where ---------------------------------------------------------
+rng = chk.rng('topology')
+pl_, pmeta = [], []
+for i in range(1500 if chk.thorough else 120):
+    system, kind, c6 = gen_tables(rng)
+    other, _, _ = gen_tables(rng)
+    for key in ('atomtypes', 'nonbond_params'):
+        if key in other.gmx_topology_params and key not in system.gmx_topology_params and rng.random() < 0.7:
+            system.gmx_topology_params[key] = other.gmx_topology_params[key]
+    if rng.random() < 0.1:
+        system.gmx_topology_params['atomtypes']           # the defaultdict creates an empty table on access
+    ents = [e for key in ('atomtypes', 'nonbond_params') for e in system.gmx_topology_params.get(key, [])]
+    if not c6_exact(ents, c6):
+        chk.count('table_c6c12_not_exact_in_doubles(excluded)')
+        continue
+    k = rng.random()
+    if k < 0.7:
+        paths = {'atomtypes': 'go_atomtypes.itp', 'nonbond_params': 'go_nbparams.itp'}
+    elif k < 0.8:
+        paths = {'atomtypes': 'virtual_sites_atomtypes.itp', 'nonbond_params': 'virtual_sites_nonbond_params.itp'}
+    elif k < 0.87:
+        paths = {'nonbond_params': 'nb.itp'}
+    elif k < 0.94:
+        paths = {'atomtypes': 'at.itp'}
+    else:
+        paths = []                                        # what martinize2 passes without a Go model
+    nmol = 0 if rng.random() < 0.05 else 1
+    if nmol:
+        m = vermouth.molecule.Molecule(nrexcl=1)
+        m.add_node(0, atomname='BB', atype='P2', resname='ALA', resid=1, charge_group=1, chain='A',
+                   position=np.zeros(3), mass=72.0, charge=0)
+        m.meta['moltype'] = 'mol_0'
+        system.add_molecule(m)
+    system.meta['header'] = ['verif']
+    defines = ('GO_VIRT',) if rng.random() < 0.7 else ()
+    files, err, top, others = run_topology(system, c6, paths, defines)
+    tab = lambda key, f: ([f(e) for e in system.gmx_topology_params[key]] if key in system.gmx_topology_params else None)
+    pl_.append(line('wtop', c6, nmol, tab('atomtypes', at_enc), tab('nonbond_params', nb_enc),
+                    [[a, b] for a, b in paths.items()] if isinstance(paths, dict) else None))
+    pmeta.append((i, files, err, top, others, defines, paths, system))
+pmodels = chk.drv.ask(pl_) if chk.lean_ok else [None] * len(pl_)
+for ln, mo, (i, files, err, top, others, defines, paths, system) in zip(pl_, pmodels, pmeta):
+    errs = []
+    if err == 'ok':
+        lines_ = top.split('\n') if top is not None else []
+        if top is None:
+            errs.append('no .top written')
+        elif [l for l in lines_ if l.startswith('#define')] != ['#define %s' % d for d in defines]:
+            errs.append('.top defines %r, asked for %r' % ([l for l in lines_ if l.startswith('#define')], defines))
+        elif [l for l in lines_ if l.startswith('#include')] != ['#include "martini.itp"', '#include "mol_0.itp"']:
+            errs.append('.top includes %r' % [l for l in lines_ if l.startswith('#include')])
+        if others != ['mol_0.itp']:
+            errs.append('files written besides the parameter files and the .top: %r' % (others,))
+        for key, name in (('atomtypes', 'atomtypes'), ('nonbond_params', 'nonbond_params')):
+            have = [f_ for f_ in files if f_[0] == paths.get(key)] if isinstance(paths, dict) else []
+            if (key in system.gmx_topology_params) != (len(have) == 1):
+                errs.append('table %s %s, file %s' % (key, 'present' if key in system.gmx_topology_params else 'absent',
+                                                      'written' if have else 'not written'))
+            elif have and not have[0][1].startswith('[ %s ]\n' % name):
+                errs.append('%s does not start with [ %s ]' % (have[0][0], name))
+    elif top is not None or others:
+        errs.append('after %s: .top %s, other files %r' % (err, 'written' if top is not None else 'not written', others))
+    chk.count('topology_%s' % err)
+    chk.count('topology_param_files=%d' % len(files))
+    chk.case('top-%d' % i, ln, enc(files) + ' ' + err, mo, errs, err == 'ok' and len(files) == 2)
+
+# ---- -go-write-file: what _write_contacts writes, and what read_go_map makes of it -----------------------------
+from scipy.spatial.distance import euclidean
+from vermouth import __version__ as VERMOUTH_VERSION
+MAP_EXTRA = []          # columns after `Count`: the code writes none (17 columns); read_go_map wants 18
+RESN = ['ALA', 'GLY', 'LYS', 'TRP', 'CYS', 'A', 'DA', 'HSDX', 'res0']
+rng = chk.rng('mapwrite')
+wl, wmeta = [], []
+for i in range(4000 if chk.thorough else 300):
+    nres = rng.randint(1, 7)
+    G = nx.Graph()
+    ca_pos = []
+    for r in range(nres):
+        G.add_node(r, resname=rng.choice(RESN), chain=rng.choice(['A', 'A', 'B', 'C', 'x', 'AB']),
+                   resid=rng.choice([r + 1, r + 1, r + 1, 100 + r, 9998 + r, -r, 12345 + r]))
+        ca_pos.append(np.array([rng.uniform(-30, 30) if rng.random() < 0.8 else float(rng.randint(-9, 9))
+                                for _ in range(3)]))
+    all_contacts, rows = [], []
+    for _ in range(rng.choice([0, 1, 2, 3, 5, 9])):
+        a, b = rng.randrange(nres), rng.randrange(nres)
+        over = rng.choice([0, 0, 1, 1, 2, 0.0, 1.0])
+        cont = rng.choice([0, 0, 1, 7, 23, 369, 100000, 4.0])
+        stab = rng.choice([0, 1, 5, 12])
+        rcsu = rng.choice([True, False, np.bool_(True), np.bool_(False)])
+        i1, i2 = rng.choice([(a + 1, b + 1), (np.int64(a + 1), np.int64(b + 1)), (a + 100000, b + 1)])
+        all_contacts.append([i1, i2, a, b, over, cont, stab, rcsu])
+        rows.append([int(i1), int(i2), G.nodes[a]['resname'], G.nodes[a]['chain'], int(G.nodes[a]['resid']),
+                     G.nodes[b]['resname'], G.nodes[b]['chain'], int(G.nodes[b]['resid']),
+                     qenc(euclidean(ca_pos[a], ca_pos[b]) * 10), int(over), int(cont), int(stab), bool(rcsu)])
+    d = tempfile.mkdtemp(dir=TMP)
+    path = os.path.join(d, 'contacts.out')
+    _write_contacts(path, all_contacts, ca_pos, G)
+    flush_writer()
+    with open(path, newline='') as f:
+        text = f.read()
+    sysr = vermouth.System()
+    try:
+        read_go_map(sysr, path)
+        back = 'ok ' + enc([list(c) for c in sysr.go_params['go_map'][0]])
+    except ValueError:
+        back = 'valueerror'
+    except IOError:
+        back = 'ioerror'
+    shutil.rmtree(d)
+    wl.append(line('gomapw', MAP_EXTRA, VERMOUTH_VERSION, rows))
+    wmeta.append((i, rows, text, back))
+wmodels = chk.drv.ask(wl) if chk.lean_ok else [None] * len(wl)
+for ln, mo, (i, rows, text, back) in zip(wl, wmodels, wmeta):
+    errs = []
+    # independent statement: the file lists every entry of all_contacts on one `R` line with the residues' chain and
+    # number in columns 5/6 and 9/10, and reading it back gives the contacts _get_contacts selects
+    rl = [l.split() for l in text.split('\n') if l.startswith('R ')]
+    if len(rl) != len(rows):
+        errs.append('%d R lines for %d contacts' % (len(rl), len(rows)))
+    for t, r in zip(rl, rows):
+        if len(t) < 15 or [t[4], t[5], t[8], t[9], t[11], t[14]] != [r[3], str(r[4]), r[6], str(r[7]), str(r[9]),
+                                                                      '1' if r[12] else '0']:
+            errs.append('R line %r does not carry the contact %r' % (t, r))
+    selected = [[r[4], r[3], r[7], r[6]] for r in rows if r[9] == 1 or (r[9] == 0 and r[12])]
+    # OBSERVATION, not a clause of C18: the written file has 17 columns per R line, read_go_map accepts 18 only, so a map
+    # written with -go-write-file is never read back (Lean: written_map_not_readable).  Both functions are compared
+    # with their models as they are; the mismatch is counted, not judged.
+    finding = None
+    want = ('ok ' + enc(selected)) if selected else 'ioerror'
+    chk.count('written_map_read_back_as_selected_contacts' if back == want else
+              'observation:written_map_not_read_back(17_columns_written,18_wanted)')
+    for t in rl:
+        chk.count('mapwrite_columns=%d' % len(t))
+    chk.count('mapwrite_rows=%d' % min(len(rows), 4))
+    chk.count('mapwrite_selected=%d' % min(len(selected), 3))
+    if finding:
+        chk.count('finding_' + finding)
+    chk.case('mapwrite-%d' % i, ln, enc(text) + ' read ' + back, mo, errs, len(selected) >= 1, finding=finding)
 shutil.rmtree(TMP, ignore_errors=True)
 chk.finish()
